@@ -376,10 +376,18 @@ def run(ctx):
     ctx.ob("C11.R2", fi, ok, "FuncPath.__call__ applies the function to the evaluated operand", key="FuncPath call")
     binds = [p for p in paths if p.returns and N.mk_cmp("is", fo, N.NONE) in p.guards()]
     opnd = ("param", "operand")
-    want = N.mk_ite(("call", ("free", "callable"), (opnd,), ()), ("new", "FuncPath", 0, (ff, opnd), ()), opnd)
-    got = N.canon_lids(binds[0].retval) if len(binds) == 1 and binds[0].retval else None
-    if got and got[0] == "ite" and got[2][0] == "new":
-        got = ("ite", got[1], ("new", got[2][1], 0, got[2][3], got[2][4]), got[3])
+    iscall = ("call", ("free", "callable"), (opnd,), ())
+    okb = len(binds) == 2
+    for p in binds:
+        r = N.canon_lids(p.retval) if p.retval else None
+        d = decided(p, iscall)
+        if d is True:
+            okb = okb and r is not None and r[0] == "new" and r[1] == "FuncPath" and r[3] == (ff, opnd)
+        elif d is False:
+            okb = okb and r == opnd
+        else:
+            okb = False
+    got, want = okb, True
     ctx.ob("C11.R2", fi, got == want, "an unbound helper binds to every callable operand (any expression, not only a bare path): len_(this.a + this.b) stays a helper application", key="FuncPath bind")
     fi, paths = own_method_paths(ctx, "Path2", "__call__")
     root = [p for p in paths if p.returns and N.mk_cmp("is", N.selfattr("__parent"), N.NONE) in p.guards()]
